@@ -560,6 +560,8 @@ def inventory(fn, rule, items, metas, root=None, fixed=None, required=True, orde
     metas = sym.Metas(mnames, pdefs, cdefs)
     # alternative reading of each statement: locals replaced by their unique reaching plain definition
     alt = {}
+    import collections as _coll
+    conj = _coll.defaultdict(list)       # id(if statement) -> [(conjunct index, ('if', conjunct nf))]
     for s_, nf_ in nfs:
         if isinstance(s_, (ast.Assign, ast.Return, ast.Expr)) and not any(isinstance(a, (ast.FunctionDef, ast.Lambda)) and a is not fn.ast for a in fn.ancestors(s_)):
             # other readings of the statement: local helper lambdas applied (beta-reduced) only; all locals
@@ -590,12 +592,49 @@ def inventory(fn, rule, items, metas, root=None, fixed=None, required=True, orde
                     alt.setdefault(id(s_), []).append(a_nf)
             except Exception:
                 pass
-        elif isinstance(s_, ast.If) and not s_.orelse and nf_[0] == 'if':
-            # `if c: continue` + rest  and  `if not c: rest`  are one construct: an `if` item also matches
-            # the opposite test (the run conditions of the dependent statements are decided by CONTEXT)
-            alt[id(s_)] = [('if', sym.negate(nf_[1]))]
+        elif isinstance(s_, (ast.If, ast.While)) and nf_[0] in ('if', 'while'):
+            cands_ = []
+            try:
+                t_ = sym.expand_temps(nf_[1], cdefs)
+                if t_ != nf_[1]:
+                    cands_.append((nf_[0], t_))
+            except Exception:
+                pass
+            if isinstance(s_, ast.If) and not s_.orelse:
+                # `if c: continue` + rest  and  `if not c: rest`  are one construct: an `if` item also matches
+                # the opposite test (the run conditions of the dependent statements are decided by CONTEXT)
+                for c_ in [nf_] + list(cands_):
+                    cands_.append(('if', sym.negate(c_[1])))
+            if isinstance(s_, ast.If) and not s_.orelse:
+                # `if a and b:` and `if a: if b:` are one construct: a conjunct may be matched on its own (each by
+                # a different item), and an outer test may be read together with the only `if` it contains
+                if isinstance(s_.test, ast.BoolOp) and isinstance(s_.test.op, ast.And):
+                    for j_, v_ in enumerate(s_.test.values):
+                        try:
+                            conj[id(s_)].append((j_, ('if', mkN().n(v_))))
+                        except Exception:
+                            pass
+                if len(s_.body) == 1 and isinstance(s_.body[0], ast.If) and not s_.body[0].orelse:
+                    try:
+                        inner_ = mkN().n(s_.body[0].test)
+                        parts_ = []
+                        for x_ in (nf_[1], inner_):
+                            parts_ += list(x_[1:]) if (isinstance(x_, tuple) and x_ and x_[0] == 'and') else [x_]
+                        cands_.append(('if', ('and',) + tuple(sorted(parts_, key=repr))))
+                    except Exception:
+                        pass
+            if cands_:
+                alt[id(s_)] = cands_
+        elif isinstance(s_, ast.AugAssign) and isinstance(s_.target, ast.Name) and nf_[0] == 'aug':
+            # `x += e` on a plain name reads as `x = x + e` for matching (and the other way round below)
+            try:
+                bo = ast.BinOp(left=ast.Name(id=s_.target.id, ctx=ast.Load()), op=s_.op, right=s_.value)
+                alt[id(s_)] = [('assign', (nf_[2],), mkN().n(bo))]
+            except Exception:
+                pass
     best = {'n': -1, 'binding': {}, 'matched': {}}
     via_alt = {}
+    used_conj = {}
 
     ldefs_cache = {}
 
@@ -628,23 +667,49 @@ def inventory(fn, rule, items, metas, root=None, fixed=None, required=True, orde
                 bm = binding.get(m)
                 if not (isinstance(bm, tuple) and bm and bm[0] == 'expanded'):
                     return False
-            best.update(n=len(pats) + 1, binding=dict(binding), matched=dict(matched), skipped=list(skipped))
+            best.update(n=len(pats) + 1, binding=dict(binding), matched=dict(matched), skipped=list(skipped), conj=dict(used_conj))
             return True
         inst, pat, src = pats[i]
         for s, nf in nfs:
-            if any(s is m for m in matched.values()):
+            taken = [used_conj.get(k_) for k_, m in matched.items() if m is s]
+            if taken and (None in taken or id(s) not in conj):
                 continue
-            done = False
             metas.ldefs = ldefs_of(s)
             metas.cur = id(s)
-            for cand in ([nf] + alt.get(id(s), [])):
-                for b in sym._unify(pat, cand, binding, metas):
-                    matched[inst] = s
-                    via_alt[inst] = cand is not nf
-                    if solve(i + 1, b, matched, skipped):
-                        return True
-                    del matched[inst]
-                    break          # first unifier per reading is enough; alternatives differ only in AC order
+            if not taken:
+                for cand in ([nf] + alt.get(id(s), [])):
+                    for b in sym._unify(pat, cand, binding, metas):
+                        matched[inst] = s
+                        used_conj[inst] = None
+                        via_alt[inst] = cand is not nf
+                        if solve(i + 1, b, matched, skipped):
+                            return True
+                        del matched[inst]
+                        break          # first unifier per reading is enough; alternatives differ only in AC order
+            cj = [(j_, c_) for j_, c_ in conj.get(id(s), []) if not any(j_ in (t_ if isinstance(t_, tuple) else (t_,)) for t_ in taken)]
+            if cj and pat[0] == 'if':
+                # the item's test - one condition or a conjunction - against distinct, still unused conjuncts
+                pparts = list(pat[1][1:]) if (isinstance(pat[1], tuple) and pat[1] and pat[1][0] == 'and') else [pat[1]]
+                if len(pparts) <= len(cj) and not (len(pparts) == len(conj.get(id(s), [])) and not taken):
+                    def assign(k_, b_, used_):
+                        if k_ == len(pparts):
+                            yield b_, used_
+                            return
+                        for j_, c_ in cj:
+                            if j_ in used_:
+                                continue
+                            for b2 in sym._unify(pparts[k_], c_[1], b_, metas):
+                                for r_ in assign(k_ + 1, b2, used_ + (j_,)):
+                                    yield r_
+                                break
+                    for b, used_ in assign(0, binding, ()):
+                        matched[inst] = s
+                        used_conj[inst] = used_
+                        via_alt[inst] = True
+                        if solve(i + 1, b, matched, skipped):
+                            return True
+                        del matched[inst]
+                        break
         if pat[0] == 'assign' and len(pat[1]) == 1 and isinstance(pat[1][0], tuple) and pat[1][0][0] == 'var' \
                 and pat[1][0][1] in pdefs and pat[1][0][1] not in binding:
             if solve(i + 1, binding, matched, skipped + [pat[1][0][1]]):
@@ -673,7 +738,7 @@ def inventory(fn, rule, items, metas, root=None, fixed=None, required=True, orde
                     fn.cx.documented.add(id(ds_[0].ast))
                     _document_inlined(fn, ds_[0].ast, 1)
         _roles_not_redefined(fn, rule, best['matched'], best['binding'], root, extra_defs_ok, tuple(fixed or ()))
-        context_obligations(fn, rule, best['matched'], best['binding'], root)
+        context_obligations(fn, rule, best['matched'], best['binding'], root, best.get('conj') or {})
         out = dict(best['binding'])
         out['__matched__'] = dict(best['matched'])
         return out
@@ -748,7 +813,7 @@ def _abstract(nf, inv, locals_):
     return nf
 
 
-def run_context(fn, st, binding=None, resolved=True):
+def run_context(fn, st, binding=None, resolved=True, extra_tests=()):
     """Sorted literals describing when `st` runs: tests whose outcome dominates it (guard clauses that
     leave count through the false outcome), enclosing try bodies / handlers."""
     node = fn.cfg.node_containing(st)
@@ -787,6 +852,16 @@ def run_context(fn, st, binding=None, resolved=True):
             except AnalysisError:
                 pass
         _literals(tnf, pol, lits)
+    for t_, pol_ in extra_tests:
+        tnf = sym.Normalizer().n(t_)
+        if resolved:
+            try:
+                r_ = sym.Normalizer(resolver=fn.resolver(st)).n(t_)
+                if '#phi' not in repr(r_):
+                    tnf = r_
+            except AnalysisError:
+                pass
+        _literals(tnf, pol_, lits)
     out = set()
     for nf, pol in lits:
         out.add(('when ' if pol else 'unless ') + sym.show(_abstract(nf, inv, locs)))
@@ -837,15 +912,20 @@ def loop_exits(fn, rule, inst, loop, binding=None):
                           inst='every iteration of the loop runs to its end except through the documented break/continue/return: %s' % inst)
 
 
-def context_obligations(fn, rule, matched, binding, root=None):
+def context_obligations(fn, rule, matched, binding, root=None, conj_of=None):
     """CONTEXT: each documented statement, and each return of the function, runs under the conditions
     recorded for it in flowlint/contexts.json (frozen from the reviewed tree by tools/freeze_contexts.py)."""
     cx = fn.cx
     for inst, st in matched.items():
-        ctx = run_context(fn, st, binding, resolved=False)
+        # an item matched on the j-th conjunct of `if c0 and c1 and ...` is evaluated when the earlier ones hold
+        j_ = (conj_of or {}).get(inst)
+        if isinstance(j_, tuple):
+            j_ = min(j_) if j_ else None
+        extra = [(v_, True) for v_ in st.test.values[:j_]] if (j_ and isinstance(st, ast.If) and isinstance(st.test, ast.BoolOp)) else []
+        ctx = run_context(fn, st, binding, resolved=False, extra_tests=extra)
         if ctx is None:
             continue
-        cx.context_ob(fn, rule, inst, st, {'as written': ctx, 'resolved': run_context(fn, st, binding, resolved=True)})
+        cx.context_ob(fn, rule, inst, st, {'as written': ctx, 'resolved': run_context(fn, st, binding, resolved=True, extra_tests=extra)})
     # loops: the ways out of an iteration other than its end (break / continue / return), with their conditions
     for inst, st in matched.items():
         if isinstance(st, (ast.For, ast.While)):
